@@ -47,8 +47,14 @@ func Debug() *VM {
 }
 
 func (vm *VM) Run(program *Program, env interface{}) (out interface{}, err error) {
+	// A panic with a nil value makes recover() return nil (before Go 1.21
+	// semantics): whether the run completed is tracked separately.
+	completed := false
 	defer func() {
-		if r := recover(); r != nil {
+		if r := recover(); r != nil || !completed {
+			if r == nil {
+				r = "panic called with nil argument"
+			}
 			f := &file.Error{
 				Location: program.Locations[vm.pp],
 				Message:  fmt.Sprintf("%v", r),
@@ -432,6 +438,7 @@ func (vm *VM) Run(program *Program, env interface{}) (out interface{}, err error
 	}
 
 	vm.verifEnd(nil)
+	completed = true
 	if len(vm.stack) > 0 {
 		return vm.pop(), nil
 	}
